@@ -157,7 +157,7 @@ def cond_ok(m: np.ndarray) -> bool:
 
 def make_cfg(rng) -> dict:
     return {"profile": "c06", "main_dim": rng.choice([1, 2, 2, 3, 3]), "n_steps": rng.choice([6, 10, 16, 24, 30]),
-            "n_clients": 1, "big_coll": rng.random() < 0.2, "p_float": rng.choice([0.0, 0.5]), "p_complex": 0.0,
+            "n_clients": 1, "big_coll": rng.random() < 0.3, "p_float": rng.choice([0.0, 0.5]), "p_complex": 0.0,
             "p_scaled": rng.choice([0.0, 0.4]), "p_degenerate": 0.0, "cold_start": rng.random() < 0.5, "warm": [],
             "p_law": rng.choice([0.35, 0.5])}
 
@@ -236,10 +236,10 @@ class Gen:
                 self.T[s] = {"m": np.diag(f + [1.0]), "fshape": ()}
         # a collection of transformations on both sides of the batch threshold of utils.inv
         if d >= 1 and rng.random() < 0.7:
-            k = rng.choice([1, 2, 3, 64, 65]) if cfg["big_coll"] else rng.choice([1, 2, 3])
+            k = rng.choice([64, 65, 64, 70]) if cfg["big_coll"] else rng.choice([1, 2, 3, 5])
             ms = [self.inv_matrix(n) for _ in range(min(k, 6))]
             ms = [ms[i % len(ms)] for i in range(k)]
-            s = self.add_recipe("transfcoll", [ms], {"dt": "f"})
+            s = self.add_recipe("transfcoll", [ms], {"dt": rng.choice(["f", "i", "i"])})
             self.T[s] = {"m": np.array(ms, float), "fshape": (k,)}
             self.kcoll = k
         else:
